@@ -1,14 +1,14 @@
-(** C12 -- JSON round-trips and is equivalent to the CBOR form.  PARTIAL:
-    proved for every input are the base64 layer (decode after encode is the
-    identity on every byte string), the shape of the JSON form (every member
-    is the documented name of a claim with that claim's value, in declaration
-    order, absent omitempty claims omitted, byte strings as base64) and the
-    member-name tables; the round trip of whole claims-sets and the
-    CBOR/JSON cross conversion are proved for witnesses and tied to the
-    library by correspondence plus a direct oracle.  Proofs in
-    theories/JsonProofs.v. *)
+(** C12 -- JSON round-trips and is equivalent to the CBOR form.  Proved at
+    the level of JSON value trees (the text layer of encoding/json is
+    trusted): for EVERY valid claims-set of a built-in profile with UTF-8
+    texts the JSON encoder succeeds and the dispatching decoder gives back an
+    observably equal, valid claims-set; CBOR -> claims -> JSON -> claims ->
+    CBOR reproduces the bytes; base64 decoding inverts encoding on every byte
+    string; every member is the documented name of a claim with that claim's
+    value, in declaration order, absent omitempty claims omitted.  Proofs in
+    theories/JsonProofs.v, JsonRoundtrip.v, JsonCross.v. *)
 From Coq Require Import String ZArith List.
-From PSA Require Import Base Lines Cbor Tags Wire Claims Codec Json JsonCodec JsonProofs.
+From PSA Require Import Base Lines Cbor Tags Wire Claims ClaimsSpec Codec SetterProofs CodecProofs FormatProofs Json JsonCodec JsonProofs JsonRoundtrip JsonCross.
 From PSA.Spec Require Import SpecTables SpecTags.
 Import ListNotations.
 
@@ -54,3 +54,24 @@ Theorem C12_roundtrip_witnesses :
   (exists j, encode_json W0 jw2 = Some j /\ decode_json spec_ccfg W0 j = DOk jw2).
 Proof. exact json_roundtrip_witnesses. Qed.
 Print Assumptions C12_roundtrip_witnesses.
+
+(** the property as stated *)
+Theorem C12_json_roundtrip_of_valid : forall c : claims,
+  validate spec_ccfg c = Ok tt -> builtin c -> texts_utf8 c ->
+  exists j c', encode_json W c = Some j /\ decode_json spec_ccfg W j = DOk c' /\ view c' = view c /\ validate spec_ccfg c' = Ok tt.
+Proof. exact json_roundtrip_valid. Qed.
+Print Assumptions C12_json_roundtrip_of_valid.
+
+Theorem C12_json_roundtrip_wire_ok : forall c j,
+  claims_wire_ok c -> profile_claim_ok c -> encode_json W c = Some j ->
+  exists c', decode_json spec_ccfg W j = DOk c' /\ view c' = view c.
+Proof. exact json_encode_decode_roundtrip. Qed.
+Print Assumptions C12_json_roundtrip_wire_ok.
+
+Theorem C12_cbor_json_cbor : forall c b c2 j c3,
+  claims_wire_ok c -> profile_claim_ok c -> (c_kind c = K1 \/ comps c <> []) ->
+  encode_cbor W c = Some b -> decode_cbor spec_ccfg W b = DOk c2 ->
+  encode_json W c2 = Some j -> decode_json spec_ccfg W j = DOk c3 ->
+  encode_cbor W c3 = Some b.
+Proof. exact cbor_json_cbor. Qed.
+Print Assumptions C12_cbor_json_cbor.
